@@ -1,5 +1,5 @@
 (* Property C15: calculated structure factors obey symmetry; direct and FFT routes agree.
-   Theorem part: the algebra of the direct sum over all symmetry images, for every group of the table
+   What is proved: the algebra of the direct sum over all symmetry images, for every group of the table
    regenerated from /repo. The equality of gemmi's floating-point sum with the textbook sum, Friedel's
    law, absences and the direct-vs-FFT agreement are decided by oracles on the implementation. *)
 From Coq Require Import Permutation.
